@@ -40,6 +40,11 @@ BasisOK(e) ==
   /\ ("matrix" \in DOMAIN e => /\ Len(e.matrix) = Len(e.sites)
                               /\ \A j \in 1..Len(e.sites) : /\ Len(e.matrix[j]) = n
                                                             /\ \A i \in 0..(n - 1) : LET w == DBasis(t, i, k, 0, e.sites[j]) IN FClose(e.matrix[j][i + 1], w.v, w.s))
+  \* ... and with derivative rows at the two ends: the first row is D^l B_i at the first site, the last row D^r B_i at the last
+  /\ ("matrix_lr" \in DOMAIN e => \A x \in 1..Len(e.matrix_lr) :
+        LET mx == e.matrix_lr[x] ns == Len(e.sites) IN
+        \A i \in 0..(n - 1) : LET wf == DBasis(t, i, k, mx.l, e.sites[1]) wl == DBasis(t, i, k, mx.r, e.sites[ns]) IN
+             FClose(mx.first[i + 1], wf.v, wf.s) /\ FClose(mx.last[i + 1], wl.v, wl.s))
   \* the Python-facing class on the unit-coefficient spline: a float abscissa gives D^m B_i through all three methods
   \* (first / second-order results carry no variables)
   /\ ("pyvals" \in DOMAIN e => \A r \in 1..Len(e.pyvals) :
